@@ -409,8 +409,8 @@ Proof.
     match goal with |- context [if ?b then swapbytesinbits d else Some d] => destruct (if b then swapbytesinbits d else Some d) as [d'|] end; [|discriminate].
     bind_ok H as o' eqn E. rewrite (owrite_raw_of _ _ _ _ _ E). exact H.
   - (* Bytes *) intros H. bind_ok H as n eqn En. destruct (int_of_val obj) as [z|].
-    + destruct (n <? 1)%Z; [exact H|]. destruct (65536 <? n)%Z; [exact H|].
-      destruct (integer2bytes z (Z.to_nat n) false) as [d|]; [|exact H].
+    + destruct (n <? 1)%Z; [discriminate H|]. destruct (65536 <? n)%Z; [exact H|].
+      destruct (integer2bytes z (Z.to_nat n) false) as [d|]; [|discriminate H].
       bind_ok H as o' eqn E. rewrite (owrite_raw_of _ _ _ _ _ E). exact H.
     + bind_ok H as o' eqn E. unfold write_val in E. unfold craw_write. destruct obj; try discriminate.
       rewrite (owrite_raw_of _ _ _ _ _ E). exact H.
